@@ -1,7 +1,7 @@
 """C13 — ill-formed schemas / models rejected; accepted models terminate (DESIGN §4 C13)."""
 import ast
 
-from .common import ctx, returns, calls_in_ctx, site, reach_from_succ, truthy_label, full_text
+from .common import ctx, returns, calls_in_ctx, site, reach_from_succ, truthy_label, full_text, inline_ast
 from .lvs import CK, CP, docs_sanity_bullets, raising_edge, cmp_sides
 from ..flow import callee_attr
 from ..loader import AnalysisError, norm
@@ -21,11 +21,35 @@ def run(R):
     R.ob('C13.GRD.1', 'each documented sanity rule of the binary model has a raising guard in _sanity_check, run by Checker(...) and load()')
     cur, par = [a.arg for a in df.f.node.args.args][:2]
 
+    _ti = {}
+
+    def TI(cx, t):
+        """the test with single-definition locals (also those of the enclosing function) replaced by their definitions"""
+        k = (cx.qual, t.id)
+        if k not in _ti:
+            _ti[k] = inline_ast(cx, t.ast)
+        return _ti[k]
+
+    NN = 'len(self.model.nodes)'
+
+    def p_bound(var):
+        def pred(t):
+            c = cmp_sides(t)
+            if not c:
+                return None
+            l, op, r = c
+            if l == NN:
+                l, op, r = r, FLIP.get(op), l
+            if (l, r) != (var, NN):
+                return None
+            return {ast.GtE: True, ast.Lt: False}.get(op)
+        return pred
+
     def guard(cx, oid, bullet, pred, what):
         hits = []
         for t in cx.cfg.nodes:
             if t.kind == 'test':
-                lab = pred(t.ast)
+                lab = pred(TI(cx, t))
                 if lab is not None:
                     hits.append((t, lab))
         inst = f'{cx.qual} :: {bullet[:70]}'
@@ -38,26 +62,48 @@ def run(R):
         else:
             R.ok(oid, inst, site(cx, hits[0][0].ast), f'`{norm(hits[0][0].ast)}` raises')
 
+    FLIP = {ast.Lt: ast.Gt, ast.Gt: ast.Lt, ast.LtE: ast.GtE, ast.GtE: ast.LtE, ast.Eq: ast.Eq, ast.NotEq: ast.NotEq}
+    VER, VMIN, VMAX = 'self.model.version', 'bny.MIN_SUPPORTED_VERSION', 'bny.VERSION'
+    bounds_seen = set()
+
     def p_version(t):
+        """label of the edge on which the version is unsupported; records which bounds are compared"""
         s = ast.unparse(t)
-        if s == 'self.model.version is None':
+        if VER not in s:
+            return None
+        if s == VER + ' is None':
             return True
-        if isinstance(t, ast.Compare) and len(t.ops) == 2 and ast.unparse(t.comparators[0]) == 'self.model.version' and \
-                all(isinstance(o, ast.LtE) for o in t.ops) and ast.unparse(t.left) == 'bny.MIN_SUPPORTED_VERSION' and ast.unparse(t.comparators[1]) == 'bny.VERSION':
+        if s == VER + ' is not None':
             return False
-        return None
+        if isinstance(t, ast.Compare) and len(t.ops) == 2 and ast.unparse(t.comparators[0]) == VER and \
+                all(isinstance(o, ast.LtE) for o in t.ops) and ast.unparse(t.left) == VMIN and ast.unparse(t.comparators[1]) == VMAX:
+            bounds_seen.update((VMIN, VMAX))
+            return False
+        c = cmp_sides(t)
+        if c:
+            l, op, r = c
+            if r == VER:
+                l, op, r = r, FLIP.get(op), l
+            if l == VER and (r, op) in ((VMIN, ast.Lt), (VMAX, ast.Gt)):
+                bounds_seen.add(r)
+                return True
+            if l == VER and (r, op) in ((VMIN, ast.GtE), (VMAX, ast.LtE)):
+                bounds_seen.add(r)
+                return False
+        raise AnalysisError(f'{sc.qual}: unrecognised test of the model version `{s}`')
     guard(sc, 'C13.GRD.1', bullets[0], p_version, 'version range')
-    if not any(t.kind == 'test' and p_version(t.ast) is False for t in sc.cfg.nodes):
+    if bounds_seen != {VMIN, VMAX}:
         R.fail('C13.GRD.1', f'{sc.qual} :: version within [MIN_SUPPORTED_VERSION, VERSION]', sc.qual, 'def _sanity_check',
                'the model version is not checked against both the oldest and the newest supported version', site(sc, sc.f.node))
-    guard(df, 'C13.GRD.1', bullets[1], lambda t: {('node.id', ast.NotEq, cur): True, (cur, ast.NotEq, 'node.id'): True,
-                                               ('node.id', ast.Eq, cur): False}.get(cmp_sides(t) or ()), 'node.id != index')
-    guard(df, 'C13.GRD.1', bullets[2], lambda t: {(cur, ast.GtE, 'len(self.model.nodes)'): True, ('len(self.model.nodes)', ast.LtE, cur): True,
-                                               (cur, ast.Lt, 'len(self.model.nodes)'): False}.get(cmp_sides(t) or ()), 'destination >= number of nodes')
-    guard(df, 'C13.GRD.1', bullets[3], lambda t: {('key_node_id', ast.GtE, 'len(self.model.nodes)'): True,
-                                               ('key_node_id', ast.Lt, 'len(self.model.nodes)'): False}.get(cmp_sides(t) or ()), 'signer id >= number of nodes')
-    def arity_expr(t):
-        """the `[...].count(True)` call compared with 1 in test t (directly or through a local), else None"""
+    NID = f'self.model.nodes[{cur}].id'
+    NPAR = f'self.model.nodes[{cur}].parent'
+    guard(df, 'C13.GRD.1', bullets[1], lambda t: {(NID, ast.NotEq, cur): True, (cur, ast.NotEq, NID): True,
+                                               (NID, ast.Eq, cur): False, (cur, ast.Eq, NID): False}.get(cmp_sides(t) or ()), 'node.id != index')
+    guard(df, 'C13.GRD.1', bullets[2], p_bound(cur), 'destination >= number of nodes')
+    guard(df, 'C13.GRD.1', bullets[3], p_bound('key_node_id'), 'signer id >= number of nodes')
+    def arity_parts(t):
+        """the boolean terms whose number of true ones the (inlined) test t compares with 1 - `[a, b, c].count(True)`, `a + b + c`
+        or `sum([a, b, c])` - else None"""
         if not (isinstance(t, ast.Compare) and len(t.ops) == 1 and isinstance(t.ops[0], (ast.Eq, ast.NotEq))):
             return None
         sides = [t.left, t.comparators[0]]
@@ -65,25 +111,36 @@ def run(R):
         oth = [x for x in sides if x not in one]
         if len(one) != 1 or len(oth) != 1:
             return None
-        try:
-            e = ast.parse(full_text(df, oth[0]), mode='eval').body
-        except SyntaxError:
-            return None
-        if isinstance(e, ast.Call) and callee_attr(e) == 'count' and isinstance(e.func.value, ast.List):
-            return e
+        e = oth[0]
+        if isinstance(e, ast.Call) and callee_attr(e) == 'count' and isinstance(e.func.value, (ast.List, ast.Tuple)) and len(e.args) == 1 \
+                and ast.unparse(e.args[0]) == 'True':
+            return list(e.func.value.elts)
+        if isinstance(e, ast.Call) and ast.unparse(e.func) == 'sum' and len(e.args) == 1 and isinstance(e.args[0], (ast.List, ast.Tuple)):
+            return list(e.args[0].elts)
+        if isinstance(e, ast.BinOp) and isinstance(e.op, ast.Add):
+            parts = []
+
+            def flat(x):
+                if isinstance(x, ast.BinOp) and isinstance(x.op, ast.Add):
+                    flat(x.left)
+                    flat(x.right)
+                else:
+                    parts.append(x)
+            flat(e)
+            return parts
         return None
-    guard(df, 'C13.GRD.1', bullets[4], lambda t: (isinstance(t.ops[0], ast.NotEq) if arity_expr(t) is not None else None), 'option arity')
-    guard(df, 'C13.GRD.1', bullets[5], lambda t: {('node.parent', ast.NotEq, par): True, (par, ast.NotEq, 'node.parent'): True}.get(cmp_sides(t) or ()), 'parent link')
+    guard(df, 'C13.GRD.1', bullets[4], lambda t: (isinstance(t.ops[0], ast.NotEq) if arity_parts(t) is not None else None), 'option arity')
+    guard(df, 'C13.GRD.1', bullets[5], lambda t: {(NPAR, ast.NotEq, par): True, (par, ast.NotEq, NPAR): True}.get(cmp_sides(t) or ()), 'parent link')
     # the unconditional guards lie on every path into the walk; the parent guard may be skipped only for the start node (par is None)
     loops0 = [n for n in df.cfg.nodes if n.kind == 'for']
     if loops0:
         work = min(loops0, key=lambda n: n.id)
-        for (label, pred, skips) in (('destination exists', lambda t: cmp_sides(t) in ((cur, ast.GtE, 'len(self.model.nodes)'), (cur, ast.Lt, 'len(self.model.nodes)')), set()),
-                                     ('node id == index', lambda t: cmp_sides(t) in (('node.id', ast.NotEq, cur), (cur, ast.NotEq, 'node.id'), ('node.id', ast.Eq, cur)), set()),
-                                     ('parent link', lambda t: cmp_sides(t) in (('node.parent', ast.NotEq, par), (par, ast.NotEq, 'node.parent')),
+        for (label, pred, skips) in (('destination exists', lambda t: p_bound(cur)(t) is not None, set()),
+                                     ('node id == index', lambda t: cmp_sides(t) in ((NID, ast.NotEq, cur), (cur, ast.NotEq, NID), (NID, ast.Eq, cur), (cur, ast.Eq, NID)), set()),
+                                     ('parent link', lambda t: cmp_sides(t) in ((NPAR, ast.NotEq, par), (par, ast.NotEq, NPAR)),
                                       {(t.id, truthy_label(t.ast, par) is False) for t in df.cfg.nodes if t.kind == 'test' and truthy_label(t.ast, par) is not None
                                        and ast.unparse(t.ast) != par})):
-            ts = [t for t in df.cfg.nodes if t.kind == 'test' and pred(t.ast)]
+            ts = [t for t in df.cfg.nodes if t.kind == 'test' and pred(TI(df, t))]
             inst = f'{df.qual} :: guard "{label}" cannot be bypassed'
             if ts and work.id in df.cfg.reachable(removed_nodes={t.id for t in ts}, removed_edges=skips, follow_exc=False):
                 R.fail('C13.GRD.1', inst, df.qual, ts[0].stmt if isinstance(ts[0].stmt, ast.If) else ts[0].ast,
@@ -91,13 +148,15 @@ def run(R):
             elif ts:
                 R.ok('C13.GRD.1', inst, site(df, ts[0].ast))
     # the arity count really counts the three alternatives
-    br = [e for e in (arity_expr(t.ast) for t in df.cfg.nodes if t.kind == 'test') if e is not None]
+    br = [(t, e) for (t, e) in ((t, arity_parts(TI(df, t))) for t in df.cfg.nodes if t.kind == 'test') if e is not None]
     inst = df.qual + ' :: option arity counts value / tag / fn'
     okb = False
-    if len(br) == 1 and isinstance(br[0], ast.Call) and callee_attr(br[0]) == 'count' and isinstance(br[0].func.value, ast.List):
-        parts = [ast.unparse(e) for e in br[0].func.value.elts]
-        okb = len(parts) == 3 and any('op.value' in p for p in parts) and 'op.tag is not None' in parts and 'op.fn is not None' in parts \
-            and ast.unparse(br[0].args[0]) == 'True'
+    if len(br) == 1:
+        parts = sorted(ast.unparse(e) for e in br[0][1])
+        # each term is a genuine boolean: presence of the tag / function, non-emptiness of the value
+        okb = len(parts) == 3 and 'op.tag is not None' in parts and 'op.fn is not None' in parts and \
+            any(p in ('not not op.value', 'bool(op.value)', "op.value != b''", 'len(op.value) > 0', 'len(op.value) != 0') for p in parts)
+    br = [t.ast for (t, e) in br]
     if okb:
         R.ok('C13.GRD.1', inst, site(df, br[0]))
     else:
@@ -132,7 +191,7 @@ def run(R):
     mt = ctx(R, CK + '.Checker._match')
     back = [n for n in mt.cfg.nodes if n.kind == 'stmt' and isinstance(n.ast, ast.Assign) and ast.unparse(n.ast.targets[0]) == 'cur' and ast.unparse(n.ast.value) == 'node.parent']
     stops_at_start = any(t.kind == 'test' and 'start_id' in ast.unparse(t.ast) for t in mt.cfg.nodes)
-    cmp_t = [t for t in df.cfg.nodes if t.kind == 'test' and cmp_sides(t.ast) in (('node.parent', ast.NotEq, par), (par, ast.NotEq, 'node.parent'))]
+    cmp_t = [t for t in df.cfg.nodes if t.kind == 'test' and cmp_sides(TI(df, t)) in ((NPAR, ast.NotEq, par), (par, ast.NotEq, NPAR))]
     none_skip = {(t.id, truthy_label(t.ast, par)) for t in df.cfg.nodes if t.kind == 'test' and truthy_label(t.ast, par) is not None}
     root_t = [t for t in df.cfg.nodes if t.kind == 'test' and ast.unparse(t.ast) in ('node.parent is not None', 'node.parent is None')]
     inst = mt.qual + ' :: exit of the backtracking loop'
@@ -194,8 +253,24 @@ def run(R):
         raise AnalysisError(f'{sr.qual}: unrecognised temporary-rule test `{norm(rt[0].ast) if rt else None}`')
     guard2(sr, 'reference to an undefined rule', lambda t: True if ast.unparse(t) == 'c.id not in rule_id_set' else None)
     guard2(sr, 'reference to a temporary rule', lambda t: True if ast.unparse(t) == "c.id[1] == '_'" else None)
-    guard2(to, 'dangling identifier in a reference graph', lambda t: True if ast.unparse(t) in ('src not in nodes', 'dst not in nodes') else None)
-    guard2(to, 'cycle in a reference graph', lambda t: False if ast.unparse(t) == 'cur_round' else None)
+    # roles in top_order(nodes, graph): result list = the list whose length the while test compares with len(nodes); round = the list iterated by the
+    # loop that appends to the result
+    to_args = [a.arg for a in to.f.node.args.args]
+    if len(to_args) != 2:
+        raise AnalysisError(f'{to.qual}: expected top_order(nodes, graph)')
+    t_nodes = to_args[0]
+    wh = [n for n in to.cfg.nodes if n.kind == 'test' and isinstance(n.ast, ast.Compare) and len(n.ast.ops) == 1 and isinstance(n.ast.ops[0], ast.Lt)
+          and ast.unparse(n.ast.comparators[0]) == f'len({t_nodes})' and isinstance(n.ast.left, ast.Call) and ast.unparse(n.ast.left.func) == 'len'
+          and len(n.ast.left.args) == 1 and isinstance(n.ast.left.args[0], ast.Name)]
+    t_ret = wh[0].ast.left.args[0].id if len(wh) == 1 else None
+    apps = [n for (n, c) in calls_in_ctx(to, attr='append') if t_ret and ast.unparse(c.func.value) == t_ret]
+    loops = [n for n in to.cfg.nodes if n.kind == 'for' and isinstance(n.ast.iter, ast.Name) and isinstance(n.ast.target, ast.Name)
+             and any(a.ast is x for a in apps for x in ast.walk(n.ast))]
+    t_round = loops[0].ast.iter.id if len(loops) == 1 else None
+    guard2(to, 'dangling identifier in a reference graph',
+           lambda t: True if isinstance(t, ast.Compare) and len(t.ops) == 1 and isinstance(t.ops[0], ast.NotIn) and isinstance(t.left, ast.Name)
+           and ast.unparse(t.comparators[0]) == t_nodes else None)
+    guard2(to, 'cycle in a reference graph', lambda t: False if t_round and isinstance(t, ast.Name) and t.id == t_round else None)
     guard2(gpn, 'temporary pattern as constraint value', lambda t: False if ast.unparse(t) == "op.id[0] != '_'" else (True if ast.unparse(t) == "op.id[0] == '_'" else None))
     guard2(gpn, 'temporary pattern as function argument', lambda t: False if ast.unparse(t) == "arg.id[0] != '_'" else (True if ast.unparse(t) == "arg.id[0] == '_'" else None))
     # unknown pattern: lookups of named_pats / temp_pats inside try whose KeyError/IndexError handler raises SemanticError
@@ -231,12 +306,10 @@ def run(R):
     # ------------------------------------------------------------------ LOP.1 top_order terminates
     R.ob('C13.LOP.1', 'top_order terminates: every round removes at least one node or raises')
     inst = to.qual + ' :: progress per round'
-    wh = [n for n in to.cfg.nodes if n.kind == 'test' and ast.unparse(n.ast) == 'len(ret) < len(nodes)']
-    apps = [n for (n, c) in calls_in_ctx(to, attr='append') if ast.unparse(c.func.value) == 'ret']
-    marks = [n for n in to.cfg.nodes if n.kind == 'stmt' and isinstance(n.ast, ast.Assign) and ast.unparse(n.ast.targets[0]) == 'in_degs[n]'
+    marks = [n for n in to.cfg.nodes if loops and n.kind == 'stmt' and isinstance(n.ast, ast.Assign) and isinstance(n.ast.targets[0], ast.Subscript)
+             and isinstance(n.ast.targets[0].value, ast.Name) and ast.unparse(n.ast.targets[0].slice) == loops[0].ast.target.id
              and ast.unparse(n.ast.value) == '-1']
-    loops = [n for n in to.cfg.nodes if n.kind == 'for' and ast.unparse(n.ast.iter) == 'cur_round']
-    empt = [t for t in to.cfg.nodes if t.kind == 'test' and ast.unparse(t.ast) == 'cur_round']
+    empt = [t for t in to.cfg.nodes if t.kind == 'test' and t_round and isinstance(t.ast, ast.Name) and t.ast.id == t_round]
     okp = len(wh) == 1 and len(apps) == 1 and len(marks) == 1 and len(loops) == 1 and len(empt) == 1 and \
         any(x is apps[0].ast for x in ast.walk(loops[0].ast)) and any(x is marks[0].ast for x in ast.walk(loops[0].ast)) and \
         not any(isinstance(x, (ast.If, ast.Continue, ast.Break)) for x in ast.walk(loops[0].ast))
